@@ -194,6 +194,9 @@ Fixpoint pubs (H : buf) (ops : list op) : buf :=
     A case is the adapter kind, the number [n] of payload components (1 = scalar, >1 = flattened
     grid), a flag saying whether the float arithmetic of the case is exact, and the scripted
     pushes / pulls.  The observation is the list of pull results of the real adapter. *)
+(** compact literal for a double: [fq m e] = m / 2^e (parsing [Qmake] literals dominated the run time) *)
+Definition fq (m : Z) (e : N) : Q := Qmake m (Pos.shiftl 1 e).
+
 Inductive vop : Type :=
 | VPush (t : Z) (vs : list Q)
 | VPull (t : Z).
